@@ -58,6 +58,12 @@ def run(chk, tier):
     from ..rules import sibs as _SB
     _SB.check(chk, db, ['_functional/', '_tuple/', '_utility/pair'])      # SIB: cv/ref-qualified overloads of one member agree
     _SB.positive_control(chk)
+    from ..rules import initform as _IF
+    _IF.check(chk, db, ['_tuple/', '_functional/', '_utility/'])      # INITFORM: forwarded packs direct-non-list-initialise
+    if not db.by_q.get('etl::make_from_tuple'):
+        chk.analysis_broken('INITFORM: etl::make_from_tuple no longer exists')
+    elif not chk.rule_instances.get('INITFORM'):
+        chk.unknown_instance('INITFORM', 'etl::make_from_tuple', 'no construction of T from the expanded tuple recognised')
     n = 0
     for rec, name, neg in WRAPPERS:
         if rec:
